@@ -294,7 +294,20 @@ func c09Strata() []*gast.Grammar {
 	r := func(n string, e *gast.Expr) *gast.Rule { return &gast.Rule{Name: n, Expr: e} }
 	inv := func(s string) *gast.Expr { return gast.Cl(&gast.ClassSpec{Chars: []rune(s), Inverted: true}) }
 	act := func(e *gast.Expr, id int) *gast.Expr { return gast.A(e, id, mon.Spec{R: 2}) }
+	word := func() *gast.Expr { return gast.Plus(gast.Cl(gast.Chars("ab"))) }
 	return []*gast.Grammar{
+		// recovery expressions that are rules used nowhere else and that reference further rules; an
+		// inline recovery expression made of rule references; a leaf rule used both as recovery
+		// expression and in an ordinary position of the same host
+		mk(r("S", gast.S(gast.Star(gast.S(gast.Ref("Item"), gast.Opt(gast.L(";")))), gast.Star(gast.Dot()))),
+			r("Item", gast.Rec(act(gast.S(gast.Lab("k", word()), gast.L("="), gast.Lab("v", gast.C(gast.Plus(gast.Cl(gast.Chars("01"))), gast.Thr("L1")))), 1), gast.Ref("Skip"), "L1")),
+			r("Skip", act(gast.S(gast.Ref("Junk"), gast.AndE(gast.C(gast.L(";"), gast.NotE(gast.Dot())))), 2)), r("Junk", gast.Star(inv(";")))),
+		mk(r("S", gast.S(gast.Star(gast.S(gast.Ref("Item"), gast.Opt(gast.L(";")))), gast.Star(gast.Dot()))),
+			r("Item", gast.Rec(act(gast.S(gast.Lab("k", word()), gast.L("="), gast.Lab("v", gast.C(gast.Plus(gast.Cl(gast.Chars("01"))), gast.Thr("L1")))), 1), gast.C(gast.Ref("Q"), gast.Ref("J")), "L1")),
+			r("Q", act(gast.S(gast.L("?"), gast.Ref("J")), 2)), r("J", act(gast.Star(inv(";")), 3))),
+		mk(r("S", gast.S(gast.Star(gast.S(gast.Ref("Item"), gast.Opt(gast.L(";")))), gast.Star(gast.Dot()))),
+			r("Item", gast.Rec(act(gast.S(gast.Lab("k", gast.Ref("W")), gast.L("="), gast.Lab("v", gast.C(gast.Plus(gast.Cl(gast.Chars("01"))), gast.Thr("L1")))), 1), gast.Ref("W"), "L1")),
+			r("W", gast.Star(gast.Cl(gast.Chars("ab"))))),
 		// leaf rule shared by two hosts, next to literals
 		mk(r("S", gast.C(gast.Ref("R1"), gast.Ref("R2"))), r("R1", gast.S(gast.Ref("L"), gast.L("b"))), r("R2", gast.S(gast.Ref("L"), gast.L("c"))), r("L", gast.L("a"))),
 		// inverted classes side by side
